@@ -111,7 +111,7 @@ theorem after_step {P : Params κ} (hG : Good P) {cfg : Cfg} {defs0 defs : Defs}
       (by rw [hks, hJ.res l0 hl0o hD t ohs ht hohf]; exact hresf)
       (by rw [hlabt0, hJ.taint l0 hl0o hD]; exact hta) (hpl.cached l0 hl0o t ht0) hpl.enabled hch2 hv
       (fun ov hov => hJ.cas _ (hb ov hov))
-    rw [buildTarget_hit_intro P cfg defs fuel t s2 _ ohs hd hohs hhit]
+    rw [buildTarget_hit_intro P cfg defs fuel t s2 _ ohs hd hohs hhit hm]
     have hoff : ∀ p, p ∉ outPaths t → writeOuts s2.fs r.outs p = s2.fs p := fun p hp =>
       writeOuts_not_mem _ _ _ (by rw [outPaths, ← hv, List.map_map] at hp; exact hp)
     refine ⟨hJ.log, ?_, hJ.cas, hJ.taint, hJ.res, ?_⟩
